@@ -571,6 +571,17 @@ func runC11(r *vk.Run) {
 			recs = append(recs, Rec{TS: metricT0 + 5e8 + int64(i)*1e6, Labels: map[string]string{"job": "j"},
 				Line: fmt.Sprintf(`{"status":%s,"ok":%s,"lat":%s,"svc":%q,"n":%d}`, rw.status, rw.ok, rw.lat, rw.svc, i)})
 		}
+		// lines that fail | json carry __error__ (and none of the four labels): they belong to the group
+		// of series lacking the by-labels, failed or not
+		broken := 0
+		if rng.Chance(1, 3) {
+			broken = rng.Range(1, 3)
+			for i := 0; i < broken; i++ {
+				recs = append(recs, Rec{TS: metricT0 + 6e8 + int64(i)*1e6, Labels: map[string]string{"job": "j"}, Line: vk.Pick(rng, []string{"plain text", `{"status":`, "GET / 200"})})
+			}
+			sortRecs(recs)
+			c.Count("typed_cases_with_failed_lines", 1)
+		}
 		names := []string{"status", "ok", "lat", "svc"}
 		by := vk.Subset(rng, names)
 		if len(by) == 0 {
@@ -578,7 +589,11 @@ func runC11(r *vk.Run) {
 		}
 		inner := fmt.Sprintf(`sum by (%s) (count_over_time({job="j"} | json [4s]))`, strings.Join(by, ", "))
 		text := inner
-		switch rng.Intn(4) {
+		variant := rng.Intn(4)
+		if broken > 0 && variant == 0 {
+			variant = 1 // without (...) would retain the failure labels
+		}
+		switch variant {
 		case 0:
 			text = fmt.Sprintf(`sum without (%s) (count_over_time({job="j"} | json [4s]))`, strings.Join(append([]string{"msg", "n", "job"}, complement(names, by)...), ", "))
 		case 1:
@@ -601,6 +616,9 @@ func runC11(r *vk.Run) {
 				l[k] = map[string]string{"status": rw.status, "ok": rw.ok, "lat": rw.lat, "svc": rw.svc}[k]
 			}
 			want[labelKey(l)]++
+		}
+		if broken > 0 {
+			want[labelKey(map[string]string{})] += float64(broken)
 		}
 		got := map[string]float64{}
 		for _, sr := range res.Series {
